@@ -136,7 +136,7 @@ impl Gen {
     fn u8(&mut self) -> u8 {
         self.rng.int(8) as u8
     }
-    fn u16(&mut self) -> u16 {
+    pub fn u16(&mut self) -> u16 {
         self.rng.int(16) as u16
     }
     fn u32(&mut self) -> u32 {
